@@ -19,12 +19,12 @@ CHECKS['C18'] = dict(category='proof',
    technique='pointwise VCs from the AST (abstract array domain), z3 linear real arithmetic + UF; 4^n enumeration as bounded cross-check')
 CHECKS['C07'] = dict(category='proof',
    text='fast_choice, probability_distribution (plain and deformed, loop by the derived rule R-pointwise), generate + pauli_to_bsf, get_weights and '
-        'update_probabilities are executed symbolically with a symbolic qubit index and symbolic n; 29 real-arithmetic obligations: inverse-CDF '
+        'update_probabilities are executed symbolically with a symbolic qubit index and symbolic n; 32 obligations (real arithmetic): inverse-CDF '
         'intervals of exact length p_k, per-qubit table = (1-p, p r_D(X), p r_D(Y), p r_D(Z)), non-negative and normalised, BSF bits of the drawn Pauli, '
         'p=0/p=1 extremes, LLR weights and their sign, conditional-probability update, no raise. Counter-models are replayed on the real functions; '
         'run-time contracts over every code class x deformation x axis as bounded cross-check.',
    note='Assumed: floats as reals (float cumulative-sum shortfall is outside the claim); rng.random() uniform on [0,1) and independent; numpy elementwise semantics; '
-        'get_deformation returns a permutation (proved in C08); log strictly increasing. BP-OSD channel priors are checked under C05.',
+        'get_deformation returns a permutation (proved in C08); log strictly increasing. The BP-OSD channel priors are the wiring VC of BeliefPropagationOSDDecoder.decode (shared with C05), replayed by reading channel_probs back from the ldpc objects.',
    technique='pointwise VCs from the AST (abstract arrays, derived loop rule), z3 real arithmetic; counter-model replay; run-time contracts')
 CHECKS['C01'] = dict(category='proof',
    text='For 15 of the 16 lattice classes get_stabilizer is executed symbolically at a symbolic location on a lattice of symbolic size; coordinate lists and '
@@ -48,11 +48,14 @@ CHECKS['C02'] = dict(category='proof',
    text='Per lattice class, with symbolic lattice size: coordinate lists contain no duplicates, qubit and stabilizer coordinates are disjoint, every support '
         'entry of get_stabilizer is a qubit and supports are never empty (builder-rule summaries + symbolic get_stabilizer). For ANY code (uninterpreted location '
         'sort, index an arbitrary bijection): to_bsf and from_bsf satisfy their pointwise contracts by quantified inductive invariants whose step relation is the '
-        'symbolically executed loop body of the real method, and are mutually inverse. Hash-order independence by a taint scan of the indexing functions. '
-        'H assembly, stored values, CSS masks/blocks, sector dependence, sparse-row input, 200 random user-defined subclasses and 4 PYTHONHASHSEED values are '
-        'run-time contracts (bounded).',
-   note='Assumed: numpy nonzero() lists columns ascending; dict keys() visits each key once; a duplicate-free coordinate list makes qubit_index a bijection. '
-        'stabilizer_matrix (dok assembly) and the CSS properties are not proved, only checked at run time.',
+        'symbolically executed loop body of the real method, and are mutually inverse. The assembly of the parity-check matrix (stabilizer_matrix: counting loop '
+        'invariant over a generic row and a generic key, dok copy, csr, data mod 2) gives row i = BSF image of generator i. CSS clauses over an uninterpreted matrix: '
+        'x_indices / z_indices, is_css, Hx / Hz (mask-selected blocks, raise iff not CSS), extract_*_syndrome, partition lemma, sector lemma. Hash-order independence by '
+        'a taint scan of the indexing functions. The same clauses on real objects (every class, deformations, use-then-deform histories, 200 random user-defined '
+        'subclasses, 4 PYTHONHASHSEED values) are run-time contracts (bounded).',
+   note='Assumed: numpy nonzero() lists columns ascending; dict keys()/items() visit each key once; a duplicate-free coordinate list makes qubit_index a bijection; '
+        'scipy getnnz(1) counts the non-zero entries of a row (stored entries are ones), boolean-mask indexing keeps the masked rows in order, dok->csr keeps values; '
+        'congruence of finite sums for the sector lemma.',
    technique='LIA VCs with symbolic lattice size; quantified loop invariants (ghost visited set) over the AST-derived loop body; taint scan; run-time contracts')
 CHECKS['C10'] = dict(category='proof',
    text='For the four decoder/code pairs the real flip_edge and the real get_stabilizer are executed symbolically with symbolic lattice size, edge and face: z3 proves '
@@ -67,22 +70,22 @@ CHECKS['C17'] = dict(category='other',
    text='Proof part: StabilizerCode.d is executed symbolically over abstract k x 2n logical matrices and shown to be the minimum over BOTH matrices of the row weight '
         '|supp x U supp z|; with C01 every such row is a non-trivial logical, so d is an upper bound on the distance for every class and size. The lower bound (no lighter '
         'logical exists) has no contract within reach for unbounded L: it is decided only by an exact z3 pseudo-Boolean search on the real matrices for every class at every '
-        'supported size with n <= 110 (quick) / 200 (thorough), witnesses re-checked natively. Claimed level is therefore "other", not proof.',
-   note='Trusted: z3 pseudo-Boolean search for the bounded part; C01 for non-triviality of the listed rows; deformation preserves weights (C08).',
+        'supported size with n <= 110 (quick) / 200 (thorough) and on every deformation (non-square sizes first), witnesses re-checked natively. Claimed level is therefore "other", not proof.',
+   note='Trusted: z3 pseudo-Boolean search for the bounded part; C01 for non-triviality of the listed rows. No class overrides the generic d (structural clause).',
    technique='array VC from the AST of StabilizerCode.d (upper bound); exact bounded minimum-weight search for the lower bound')
 CHECKS['C20'] = dict(category='other',
    text='Finite and complete: for each of the 16 classes the strings stabilizer_type can return on a stabilizer location are computed by symbolic execution with symbolic lattice '
         'size (one reachability query per string), and gui-config.json is checked to hold a complete drawable description (object, colours in the colormap literal, opacity, params) '
-        'for each of them and for the qubits in both pictures the visualizer offers; the code and decoder menus are checked on the AST. Request/response faithfulness '
-        '(H, logicals, index order, decoder menu, /decode vs the library decoder) goes through the Flask test client on bounded sizes.',
+        'for each of them and for the qubits in both pictures the visualizer offers; the code and decoder menus and the request-key data flow of the noise model of /decode and /new-errors are checked on the AST. Request/response faithfulness '
+        '(H, logicals, index order, decoder menu, /decode and /new-errors vs the library for every ordered pair of code / noise deformation) goes through the Flask test client on bounded sizes.',
    note='Assumed: main.js offers the rotated picture for every code (text scan). Class-specific overrides of *_representation and Flask/json are exercised only by the bounded layer.',
    technique='symbolic execution of stabilizer_type + cover queries; table lookup; Flask test client as run-time contract')
 CHECKS['C06'] = dict(category='other',
    text='decode() of all nine decoder classes, together with every repository function it reaches, is analysed by an ownership-and-dependence abstract interpretation of the '
-        'real AST: 45 frame/dependence obligations - no in-place write to the caller\'s syndrome, none to cached tables, no syndrome-dependent value stored in any field, third-party '
-        'decoder objects have their channel probabilities overwritten before use, the returned correction does not read unspecified state of third-party objects and depends only on '
+        'real AST: 45 frame/dependence obligations - no in-place write to the caller\'s syndrome, none to cached tables, no syndrome-dependent value stored in any field, every use of a third-party '
+        'decoder object that can hold syndrome-conditioned channel probabilities is dominated (every path, case split over configuration tests) by a reset of those probabilities, the returned correction does not read unspecified state of third-party objects and depends only on '
         'allowed sources - plus frame clauses for the four noise-model functions. These are decided for every path and every array content, without a solver. History-independence '
-        'itself is exercised on real objects (reused vs fresh decoder over syndrome histories, byte-wise comparison of arguments and cached tables) as bounded layer.',
+        'itself is exercised on real objects (reused vs fresh decoder over syndrome histories incl. sector-pure syndromes and BP-OSD with channel_update, byte-wise comparison of arguments and cached tables) as bounded layer.',
    note='Assumed: numpy view/copy rules; third-party decode() returns a function of (matrix, current priors, syndrome) and does not modify its arguments; unknown calls do not write their '
         'arguments. UnionFind Support objects and decoders held in containers are not followed by the analysis (bounded only). Level "other": decided statically, not by an SMT proof.',
    technique='frame (assigns) and dependence obligations by abstract interpretation over the AST; reused-vs-fresh decoder run-time contract')
@@ -97,14 +100,14 @@ CHECKS['C05'] = dict(category='other',
 CHECKS['C11'] = dict(category='other',
    text='run_once is executed symbolically against tagged stand-ins: every recorded field is shown to be the named function of error / correction (syndrome of the generated error, decoder '
         'called on that syndrome, effective error and codespace of (correction+error) mod 2, success <=> codespace and zero effective error; rates outside [0,1] raise); one generic iteration of '
-        'DirectSimulation._run appends exactly one value per recorded list and increments n_runs (inductive step of len == n_runs); get_results is n_fail/n_runs with the stated standard error; '
+        'DirectSimulation._run calls run_once on the simulation\'s own code, noise model, decoder, error rate and generator (arguments bound against the real signature), appends exactly one value per recorded list and increments n_runs (inductive step of len == n_runs); get_results is n_fail/n_runs with the stated standard error; '
         'a dependence analysis shows that run_once, generate, fast_choice and every decode() read no global random state on the seeded path. Calibration is a stated lemma over C04+C06+C07, '
         'cross-checked exactly (no statistics) by summing the channel over all 4^n errors on small codes; seeded runs are repeated in fresh processes and in chunks (bounded).',
    note='Assumed: numpy Generator determinism; C04/C06/C07 for the calibration lemma. Level "other": the unbiasedness claim itself is a composition lemma, not a discharged VC.',
    technique='VCs from symbolic execution of run_once / _run body / get_results; dependence analysis for RNG threading; exact 4^n enumeration as bounded cross-check')
 CHECKS['C12'] = dict(category='other',
    text='Crash-atomicity of save_json is a crash-invariant obligation over an assumed POSIX effect model, decided on the AST (only effect on the results file: os.replace of a fully written, '
-        'closed temporary file); the adoption rule of load_results (first record with equal inputs, only existing keys) and the counting invariant of BatchSimulation._run (init/step/final: '
+        'closed temporary file); the adoption rule of load_results (first record whose inputs - code, noise, decoder, method, real-valued error rate - are EQUAL, np.isclose not being equality; only existing keys) and the counting invariant of BatchSimulation._run (init/step/final: '
         'exactly max(N, n0) trials per simulation; a save in the last iteration) are discharged by z3 from the symbolically executed bodies. The real BatchSimulation is killed with os._exit at '
         'EVERY file-system effect point of a run (plain and gzip), restarted with more trials / an appended simulation, and the post-condition checked (exhaustive over effect points for the '
         'stated scenario).',
@@ -121,26 +124,28 @@ CHECKS['C13'] = dict(category='proof',
 CHECKS['C19'] = dict(category='other',
    text='A slice of generate_input (the loop over bias ratios, everything it needs executed symbolically, dropped statements listed in the evidence) is run for two symbolic ratios: z3 (strings) '
         'proves the two iterations write different files, so each bias ratio keeps its own specification; the written ranges dict is shown to hold this iteration\'s direction, the parsed sizes '
-        'and the rate list; get_direction_from_bias_ratio is proved (reals) to be non-negative, to sum to 1 and to put eta/(1+eta) (1 at infinity) on the chosen axis. The floating-point '
-        'progression of read_range_input cannot be proved for all inputs: it is checked against an exact decimal oracle on a grid, and the real CLI output is read back through the simulator (bounded).',
-   note='Assumed: str() of distinct bias ratios is distinct; reals for floats in the direction formula. Level "other" because the min:max:step clause is bounded only.',
+        'and the rate list; get_direction_from_bias_ratio is proved (reals) to be non-negative, to sum to 1 and to put eta/(1+eta) (1 at infinity) on the chosen axis. The arithmetic '
+        'slice of read_range_input is proved over the REALS (nonlinear): no value beyond max, every value on min + i*step, none dropped, nothing raised. Its floating-point behaviour '
+        'is checked against an exact decimal oracle on a grid, and the real CLI output is read back through the simulator (bounded).',
+   note='Assumed: str() of distinct bias ratios is distinct; reals for floats in the direction formula and the range clauses (A-real). Level "other" because floating-point rounding of the '
+        'min:max:step clause is bounded only.',
    technique='string/real VCs from a symbolically executed slice of the CLI command; exact-decimal run-time oracle for the float range')
 CHECKS['C03'] = dict(category='proof',
    text='bs_prod / _bs_prod_sparse are executed symbolically for every pair of argument classes {list-1d, list-2d, dense-1d, dense-2d, csr-2d} x dtypes {uint8, int64}, with symbolic widths '
-        'and row counts (single-row variants separately): 114 obligations - ValueError exactly on odd or unequal widths; each of the two dot products has the summand and range of one half '
+        'and row counts (single-row variants separately): 114 obligations (quick tier) - ValueError exactly on odd or unequal widths; each of the two dot products has the summand and range of one half '
         'of the symplectic form (dot products are uninterpreted sums whose summand is checked); result = (S1+S2) mod 2 in {0,1} with the parity surviving the uint8 wrap-around; documented '
         'output shape. Lemmas over the summand: symmetric, zero on equal arguments, additive (=> syndrome GF(2)-linear), insensitive to mod-2 reduction. pauli_string_to_bvector / '
         'bvector_to_pauli_string by a derived append rule, with their inverse lemma. Exhaustive n <= 3 over all representation pairs, stacks to n = 600 with overlaps > 255 and all other '
-        'converters (int, sparse rows, weights) are run-time contracts.',
+        'converters (int, sparse rows, weights) are run-time contracts; results are fresh objects (no memoised mutable result: ownership clause + run-time mutation test).',
    note='P*: the numpy/scipy semantics of dot, slicing, reshape, %, + and csr .data are ASSUMED contracts (monitored by the bounded layer). The sparse branch requires binary entries. '
         'bvector_to_int / int_to_bvector / bsf_to_pauli / bsf_wt are bounded only.',
    technique='array-domain VCs from the AST (uninterpreted bilinear sums with summand/range obligations), z3 modular arithmetic; exhaustive small-n run-time contract')
 CHECKS['C04'] = dict(category='other',
-   text='For any code (abstract H, LX, LZ of symbolic shape): in_codespace(e) <=> every <H_i,e> = 0; get_effective_error for one error = [<LZ_i,e> | <LX_i,e>] (first k bits flag X-type action); '
+   text='For any code (abstract H, LX, LZ of symbolic shape): in_codespace(e) <=> every <H_i,e> = 0; get_effective_error = [<LZ_i,e> | <LX_i,e>] (first k bits flag X-type action) for one error and row-wise for stacks (k >= 2, k = 1 and 1-row branches); '
         'logical_errors passes (e, logicals_x, logicals_z); is_success = in_codespace and no logical error; coset/additivity lemmas. The step from "commutes with all generators and all listed '
         'logicals" to "is a product of generators" needs rank(H) = n-k, which is only bounded in C01 - hence level "other": that clause is decided by enumerating all 4^n residual errors on every '
         'library code with n <= 6 (quick) / 8 against an independent GF(2) row-space membership oracle, and by structured samples on larger codes.',
-   note='Assumed: C03 (bs_prod contract), C01.logcomm, textbook symplectic linear algebra (M-sympl). Stacked (2-D) error input is bounded only.',
+   note='Assumed: C03 (bs_prod contract incl. its (rows(a), rows(b)) shape for stacks), C01.logcomm, textbook symplectic linear algebra (M-sympl). The bounded layer also visits objects that were used and then deformed.',
    technique='composition VCs over the bs_prod contract from symbolic execution; exhaustive 4^n enumeration vs an independent GF(2) oracle')
 CHECKS['C09'] = dict(category='other',
    text='What panqec itself contributes to minimum-weight matching is discharged deductively: the weights handed to PyMatching are the LLRs of the X-/Z-flip marginals, positive iff the marginal '
